@@ -10,13 +10,22 @@ Driver family `reobserve` (C17).  One session (= one case id) is a `reset` line 
 * `tick    <cid> now=<ns> res=.. lens=..`
 * `drain   <cid> chain=<c> n=<k> got=<chain32:txhex;..|-> lens=..`
 * `setchan <cid> chain=<c> cap=<k> lens=..`      `delchan <cid> chain=<c> lens=..`
+* `adv     <cid> now=<ns> lens=..`                 (the clock moves on, no dispatcher event)
 * `end     <cid> res=ok|panic|running`
 * `post    <id> cap=<k> fill=<j> res=ok|full|blocked|panic len=<n>`
+* `adminpost <id> cap=<k> fill=<j> ctx=bg|deadline res=ok|full|err|blocked|panic len=<n> last=same|altered|missing|- prefix=ok|changed`
 
 Per session the driver replays the model (`Whv.Reobserve.step` with the extracted window) and compares every queue
 length and every drained item (`diff`), and evaluates the property on what the implementation itself did (`spec`),
 from a ghost record built ONLY from the implementation's observable behaviour (queue length changes, drained
 items, the clock readings in the lines) — it never looks at the model's cache.
+
+Everything that arrives on a watcher queue is accounted for over the whole session: a queue that grows although no
+request of the session was forwarded to it then (during a clock advance, a tick, a drain, a request for another
+chain) gets a `stray` placeholder in the ghost queue; when the item is drained it is identified — a request that had
+been dropped earlier (`dropped-request-delivered-later`), something nobody asked for (`unrequested-delivery`) — and it
+counts as a delivery of its (chain, transaction) for the at-most-once clause (`duplicate-within-window`).
+A session reports every clause it violates (one `spec` line per clause).
 -/
 namespace Whv.Driver.ReobserveFam
 open Whv Whv.Driver Whv.Reobserve
@@ -55,6 +64,17 @@ structure KeyInfo where
   lastFwd : Option Nat := none    -- time of the last forward the implementation made
   purgeable : Bool := false       -- a tick later than lastFwd + W has been handled since
   dropped : Bool := false         -- since then a request for it was dropped for lack of a watcher / room
+  lastStray : Option Nat := none  -- a delivery of this key that no request made happened after this clock reading
+
+/-- One entry of a ghost watcher queue. -/
+inductive GItem where
+  | fwd (r : Req)               -- put there by a request of the session (the queue grew by one while it was handled)
+  | stray (lo hi : Nat)         -- arrived between the clock readings `lo` and `hi` while nothing was being forwarded to this queue
+deriving Repr
+
+def showG : GItem → String
+  | .fwd r => showReq r
+  | .stray lo hi => s!"<arrived unrequested between {lo} and {hi}>"
 
 structure Sess where
   cid : String := ""
@@ -62,9 +82,11 @@ structure Sess where
   model : State := {}
   caps : List (Nat × Nat) := []            -- ghost: watcher capacities (from reset / setchan lines)
   lens : List (Nat × Nat) := []            -- ghost: last queue lengths the implementation reported
-  gq : List (Nat × List Req) := []         -- ghost: what the implementation forwarded and was not yet drained
+  gq : List (Nat × List GItem) := []       -- ghost: what arrived on each watcher queue and was not yet drained
   keys : List (Key × KeyInfo) := []
-  spec : Option String := none
+  clock : Nat := 0                         -- ghost: the last clock reading of the session
+  dropped : List (Nat × Req × Nat) := []   -- ghost: (named chain, request, time) of requests dropped for lack of room / a watcher
+  specs : List (String × String) := []     -- violated clauses (first text per clause), in order
   diff : Option String := none
   ended : Bool := false
 
@@ -81,19 +103,22 @@ structure St where
   purges : Nat := 0
   reforwards : Nat := 0
   posts : Nat := 0
+  adminPosts : Nat := 0
+  adminFull : Nat := 0
+  advances : Nat := 0
 
 def Sess.addSpec (s : Sess) (clause text : String) : Sess :=
-  if s.spec.isSome then s else { s with spec := some s!"{clause} {text}" }
+  if s.specs.any (·.1 == clause) then s else { s with specs := s.specs ++ [(clause, text)] }
 
 def Sess.addDiff (s : Sess) (text : String) : Sess :=
   if s.diff.isSome then s else { s with diff := some text }
 
 def Sess.verdict (s : Sess) : List String :=
   if !s.active then [] else
-  match s.spec, s.diff with
-  | some t, _ => [s!"spec {s.cid} {t}"]
-  | none, some t => [s!"diff {s.cid} {t}"]
-  | none, none => if s.ended then [s!"ok {s.cid}"] else [s!"diff {s.cid} session has no end line"]
+  match s.specs, s.diff with
+  | _ :: _, _ => s.specs.map fun (c, t) => s!"spec {s.cid} {c} {t}"
+  | [], some t => [s!"diff {s.cid} {t}"]
+  | [], none => if s.ended then [s!"ok {s.cid}"] else [s!"diff {s.cid} session has no end line"]
 
 def keyInfo (s : Sess) (k : Key) : KeyInfo := (s.keys.lookup k).getD {}
 
@@ -104,6 +129,72 @@ def setKeyInfo (s : Sess) (k : Key) (i : KeyInfo) : Sess :=
 def cmpLens (s : Sess) (what : String) (lens : List (Nat × Nat)) : Sess :=
   let m := modelLens s.model
   if m = lens then s else s.addDiff s!"{what}: queue lengths model={showLens m} impl={showLens lens}"
+
+def pending (s : Sess) (c : Nat) : Bool := s.dropped.any fun d => d.1 == c
+
+def showDropped (s : Sess) (c : Nat) : String :=
+  ";".intercalate ((s.dropped.filter fun d => d.1 == c).map fun (_, r, t) => s!"{showReq r}@{t}")
+
+/-- Queues that hold more than `expected` says: nothing was being forwarded to them, so what arrived was not forwarded
+by a request of the session.  A placeholder per surplus item goes into the ghost queue (identified when drained).
+The clause: `dropped-request-delivered-later` when requests for that chain were dropped earlier in the session,
+otherwise `other` (the clause the op reported for this before strays were tracked). -/
+def noteStrays (s : Sess) (what : String) (hi : Nat) (expected lens : List (Nat × Nat)) (other : String) : Sess :=
+  lens.foldl (fun s (c, n) =>
+    match expected.lookup c with
+    | some e =>
+      if n > e then
+        let q := (s.gq.lookup c).getD []
+        let s := { s with gq := (c, q ++ List.replicate (n - e) (GItem.stray s.clock hi)) :: s.gq.filter (fun x => x.1 != c) }
+        if pending s c then
+          s.addSpec "dropped-request-delivered-later" s!"the queue of the watcher of chain {c} grew {e} -> {n} during {what} (clock {s.clock} .. {hi}) although no request of the session was forwarded to it then; requests for chain {c} dropped earlier in the session (full queue / no watcher), which are to be forgotten: {showDropped s c}"
+        else
+          s.addSpec other s!"the queue of the watcher of chain {c} grew {e} -> {n} during {what} (clock {s.clock} .. {hi}) although no request of the session was forwarded to it then"
+      else s
+    | none => s) s
+
+/-- A drained item that stands where a stray arrival was noted: who is it? -/
+def identifyStray (s : Sess) (ch : Nat) (g : Req) (lo hi : Nat) : Sess :=
+  let s := match s.dropped.find? (fun d => d.1 == ch && d.2.1 == g) with
+    | some (_, _, td) => s.addSpec "dropped-request-delivered-later" s!"the watcher of chain {ch} received {showReq g} between clock {lo} and {hi} although no request of the session was forwarded then: {showReq g} had been DROPPED at now={td} (watcher queue full / no watcher) and a dropped request is not to be remembered"
+    | none => s.addSpec "unrequested-delivery" s!"the watcher of chain {ch} received {showReq g} between clock {lo} and {hi}: no request of the session was forwarded then, nor had {showReq g} been requested and dropped before"
+  let ki := keyInfo s g.key
+  let s := match ki.lastFwd with
+    | some t0 =>
+      if max hi t0 ≤ min lo t0 + W then
+        s.addSpec "duplicate-within-window" s!"{showReq g} was forwarded at {t0} and reached the watcher of chain {ch} a second time between clock {lo} and {hi} (window {W} ns) - deliveries of the whole session counted"
+      else s
+    | none => s
+  let s := match ki.lastStray with
+    | some a =>
+      if hi ≤ a + W then
+        s.addSpec "duplicate-within-window" s!"{showReq g} reached the watcher of chain {ch} after clock {a} and again between clock {lo} and {hi} (window {W} ns) - deliveries of the whole session counted"
+      else s
+    | none => s
+  setKeyInfo s g.key { ki with lastStray := some lo }
+
+/-- Compare what a watcher took from its queue with the ghost queue. -/
+def matchDrain (s : Sess) (ch : Nat) (got : List Req) (exp : List GItem) : Sess :=
+  let same := got.length = exp.length && (got.zip exp).all fun (g, e) =>
+    match e with
+    | .fwd r => g == r
+    | .stray _ _ => true
+  -- a request that had been dropped, sitting where something else (or nothing) was accepted: delivered after all
+  let intruder := (got.zip (exp.map some ++ List.replicate got.length none)).find? fun (g, e) =>
+    (match e with
+     | some (.fwd r) => g != r
+     | some (.stray _ _) => false
+     | none => true) && s.dropped.any (fun d => d.1 == ch && d.2.1 == g)
+  let s := if same then s else
+    match intruder with
+    | some (g, _) =>
+      s.addSpec "dropped-request-delivered-later" s!"watcher of chain {ch} received [{";".intercalate (got.map showReq)}] where the requests of the session account for [{";".intercalate (exp.map showG)}]: {showReq g} had been DROPPED (requests dropped for chain {ch}: {showDropped s ch}) and reached the watcher later without a request of the session being forwarded for it"
+    | none =>
+      s.addSpec "forwarded-message-altered" s!"watcher of chain {ch} received [{";".intercalate (got.map showReq)}] but the dispatcher had accepted [{";".intercalate (exp.map showG)}] for it"
+  (got.zip exp).foldl (fun s (g, e) =>
+    match e with
+    | .stray lo hi => identifyStray s ch g lo hi
+    | .fwd _ => s) s
 
 def stepSess (st : St) (op : String) (rest : List String) : St :=
   let s := st.s
@@ -118,10 +209,14 @@ def stepSess (st : St) (op : String) (rest : List String) : St :=
       else if res ≠ "ok" then { st with s := s.addSpec "dispatcher-died" s!"the dispatcher loop ended while handling request {showReq r} at now={now}" }
       else
       -- ---------- Spec on the implementation's own behaviour
-      let wrong := lens.filter fun (c, n) => c ≠ named && (s.lens.lookup c) != some n
       let before := (s.lens.lookup named).getD 0
       let after := (lens.lookup named).getD 0
-      let fwd := after = before + 1
+      let fwd := after = before + 1 || (after > before + 1 && pending s named)
+      -- arrivals that this request cannot account for, on queues for which requests were dropped earlier
+      let expected := s.lens.map fun (c, n) => if c = named && fwd then (c, n + 1) else (c, n)
+      let late := lens.filter fun (c, n) => pending s c && n > (expected.lookup c).getD n
+      let s := noteStrays s s!"request {showReq r} at now={now}" now (expected.filter fun e => late.any (·.1 == e.1)) lens "unrequested-delivery"
+      let wrong := lens.filter fun (c, n) => c ≠ named && (s.lens.lookup c) != some n && !(late.any (·.1 == c))
       let known := (s.caps.lookup named).isSome
       let room := decide (before < (s.caps.lookup named).getD 0)
       let ki := keyInfo s r.key
@@ -130,9 +225,14 @@ def stepSess (st : St) (op : String) (rest : List String) : St :=
         else if lens.map (·.1) ≠ s.lens.map (·.1) then s.addDiff s!"watcher set changed during a request: {showLens s.lens} -> {showLens lens}"
         else if after ≠ before ∧ !fwd then s.addSpec "forwarded-more-than-once" s!"request {showReq r}: queue of chain {named} went {before} -> {after}"
         else if fwd then
-          match ki.lastFwd with
-          | some t0 =>
-            if now ≤ t0 + W then s.addSpec "duplicate-within-window" s!"{showReq r} forwarded at {t0} and again at {now} ({now - t0} ns later, window {W} ns)"
+          let s := match ki.lastFwd with
+            | some t0 =>
+              if now ≤ t0 + W then s.addSpec "duplicate-within-window" s!"{showReq r} forwarded at {t0} and again at {now} ({now - t0} ns later, window {W} ns)"
+              else s
+            | none => s
+          match ki.lastStray with
+          | some a =>
+            if now ≤ a + W then s.addSpec "duplicate-within-window" s!"{showReq r} reached its watcher after clock {a} (a delivery no request made) and was forwarded again at {now} (window {W} ns) - deliveries of the whole session counted"
             else s
           | none => s
         else if known && room then
@@ -146,13 +246,15 @@ def stepSess (st : St) (op : String) (rest : List String) : St :=
       let s :=
         if fwd then
           let q := (s.gq.lookup named).getD []
-          let s := { s with gq := (named, q ++ [r]) :: s.gq.filter (fun e => e.1 != named) }
-          setKeyInfo s r.key { lastFwd := some now, purgeable := false, dropped := false }
-        else if !(known && room) && (ki.lastFwd.isNone || ki.purgeable) then setKeyInfo s r.key { ki with dropped := true }
+          let s := { s with gq := (named, q ++ [GItem.fwd r]) :: s.gq.filter (fun e => e.1 != named) }
+          setKeyInfo s r.key { lastFwd := some now, purgeable := false, dropped := false, lastStray := (keyInfo s r.key).lastStray }
+        else if !(known && room) && (ki.lastFwd.isNone || ki.purgeable) then
+          let s := setKeyInfo s r.key { (keyInfo s r.key) with dropped := true }
+          { s with dropped := s.dropped ++ [(named, r, now)] }
         else s
       -- ---------- model
       let (m', o) := step W s.model (.req now r)
-      let s := { s with model := m', lens := lens }
+      let s := { s with model := m', lens := lens, clock := now }
       let s := cmpLens s s!"req {showReq r} now={now} (model outcome {repr o})" lens
       let st := match o with
         | some (.forwarded _) => { st with forwards := st.forwards + 1, reforwards := st.reforwards + (if ki.lastFwd.isSome then 1 else 0) }
@@ -168,23 +270,27 @@ def stepSess (st : St) (op : String) (rest : List String) : St :=
       if res = "blocked" then { st with s := s.addSpec "dispatcher-blocked" s!"the dispatcher did not take the purge tick at now={now} within the timeout" }
       else if res ≠ "ok" then { st with s := s.addSpec "dispatcher-died" s!"the dispatcher loop ended while handling the tick at now={now}" }
       else
-      let s := if lens ≠ s.lens then s.addSpec "forwarded-to-wrong-chain" s!"a purge tick changed watcher queues: {showLens s.lens} -> {showLens lens}" else s
+      let late := lens.filter fun (c, n) => pending s c && n > (s.lens.lookup c).getD n
+      let s := if !late.isEmpty then noteStrays s s!"the purge tick at now={now}" now s.lens lens "forwarded-to-wrong-chain"
+        else if lens ≠ s.lens then s.addSpec "forwarded-to-wrong-chain" s!"a purge tick changed watcher queues: {showLens s.lens} -> {showLens lens}" else s
       let s := { s with keys := s.keys.map fun ((k, i) : Key × KeyInfo) =>
         match i.lastFwd with
         | some t0 => if now > t0 + W then (k, { i with purgeable := true }) else (k, i)
         | none => (k, i) }
       let (m', _) := step W s.model (.tick now)
       let purged := s.model.cache.length - m'.cache.length
-      let s := { s with model := m', lens := lens }
+      let s := { s with model := m', lens := lens, clock := now }
       { st with s := cmpLens s s!"tick now={now}" lens, ticks := st.ticks + 1, purges := st.purges + purged }
     | _, _, _ => { st with s := s.addDiff "unparsable tick line" }
   | "drain" =>
     match kvNat rest "chain", kvNat rest "n", kv rest "got" >>= parseItems, kv rest "lens" >>= parsePairs with
     | some ch, some n, some got, some lens =>
+      -- arrivals between the previous line and this drain: the queue held (what was taken + what is left) items when the
+      -- watcher took its share; more than the ghost queue knows of = strays, queued behind everything known
+      let held := lens.map fun (c, k) => if c = ch then (c, k + got.length) else (c, k)
+      let s := noteStrays s s!"a drain of chain {ch}" s.clock s.lens held "unrequested-delivery"
       let gqc := (s.gq.lookup ch).getD []
-      let s := if got ≠ gqc.take n then
-          s.addSpec "forwarded-message-altered" s!"watcher of chain {ch} received [{";".intercalate (got.map showReq)}] but the dispatcher had accepted [{";".intercalate ((gqc.take n).map showReq)}] for it"
-        else s
+      let s := matchDrain s ch got (gqc.take n)
       let s := { s with gq := (ch, gqc.drop n) :: s.gq.filter (fun e => e.1 != ch) }
       let mq : List Req := ((s.model.chans.lookup ch).map (fun (q : Chan) => q.items)).getD []
       let s := if got ≠ mq.take n then s.addDiff s!"drain chain {ch}: model=[{";".intercalate ((mq.take n).map showReq)}] impl=[{";".intercalate (got.map showReq)}]" else s
@@ -208,6 +314,14 @@ def stepSess (st : St) (op : String) (rest : List String) : St :=
       let s := { s with model := m', lens := lens }
       { st with s := cmpLens s s!"delchan {ch}" lens }
     | _, _ => { st with s := s.addDiff "unparsable delchan line" }
+  | "adv" =>
+    match kvNat rest "now", kv rest "lens" >>= parsePairs with
+    | some now, some lens =>
+      let s := noteStrays s s!"a clock advance to now={now} (no request, no tick)" now s.lens lens "unrequested-delivery"
+      let (m', _) := step W s.model (.advance now)
+      let s := { s with model := m', lens := lens, clock := now }
+      { st with s := cmpLens s s!"adv now={now}" lens, advances := st.advances + 1 }
+    | _, _ => { st with s := s.addDiff "unparsable adv line" }
   | "end" =>
     let s := { s with ended := true }
     match kv rest "res" with
@@ -247,6 +361,27 @@ def step (st : St) (line : String) : St × List String :=
         else s!"ok {id}"
       (st, outs ++ [v])
     | _, _, _, _ => (st, outs ++ [s!"diff {id} unparsable post line"])
+  | "adminpost" :: id :: rest =>
+    let outs := st.s.verdict
+    let st := { st with s := {}, adminPosts := st.adminPosts + 1 }
+    match kvNat rest "cap", kvNat rest "fill", kv rest "ctx", kv rest "res", kvNat rest "len", kv rest "last", kv rest "prefix" with
+    | some cap, some fill, some ctx, some res, some len, some last, some pre =>
+      let q : Chan := { cap := cap, items := List.replicate fill ⟨0, []⟩ }
+      let (q', ok) := adminSend q ⟨1, [1]⟩
+      let caller := if ctx = "bg" then "a context without deadline" else "a context with a deadline far beyond the harness timeout"
+      let st := if fill ≥ cap then { st with adminFull := st.adminFull + 1 } else st
+      let v :=
+        if res = "blocked" then
+          if fill ≥ cap then s!"spec {id} admin-post-blocked SendObservationRequest (caller with {caller}) had not returned within the harness timeout on a FULL outbound request queue ({fill} of {cap}): the post stalls its caller instead of failing immediately"
+          else s!"spec {id} admin-post-blocked SendObservationRequest (caller with {caller}) had not returned within the harness timeout on an outbound request queue holding {fill} of {cap}"
+        else if res = "panic" then s!"spec {id} admin-post-panic SendObservationRequest panicked on a queue holding {fill} of {cap}"
+        else if fill ≥ cap ∧ (res = "ok" ∨ len ≠ fill ∨ pre ≠ "ok") then s!"spec {id} admin-post-full-not-rejected SendObservationRequest on a full queue ({fill} of {cap}): result {res}, length afterwards {len}, earlier entries {pre}"
+        else if fill < cap ∧ (res ≠ "ok" ∨ len ≠ fill + 1) then s!"spec {id} admin-post-room-rejected SendObservationRequest on a queue holding {fill} of {cap}: result {res}, length afterwards {len}"
+        else if fill < cap ∧ (last = "altered" ∨ last = "missing" ∨ pre ≠ "ok") then s!"spec {id} admin-post-request-altered SendObservationRequest on a queue holding {fill} of {cap} returned success but the last entry of the queue is not the caller's request unchanged (last={last}, earlier entries {pre})"
+        else if (res = "ok") ≠ ok ∨ q'.items.length ≠ len then s!"diff {id} adminpost model=({ok},{q'.items.length}) impl=({res},{len})"
+        else s!"ok {id}"
+      (st, outs ++ [v])
+    | _, _, _, _, _, _, _ => (st, outs ++ [s!"diff {id} unparsable adminpost line"])
   | op :: cid :: rest =>
     if st.s.active && st.s.cid = cid then (stepSess st op rest, [])
     else (st, [s!"diff {cid} line outside a session: {line.take 80}"])
@@ -256,7 +391,8 @@ def fin (st : St) : List String :=
   st.s.verdict ++
   [s!"stat sessions {st.sessions}", s!"stat requests {st.reqs}", s!"stat forwarded {st.forwards}", s!"stat reforwarded_after_window {st.reforwards}",
    s!"stat duplicates {st.duplicates}", s!"stat dropped_full {st.fulls}", s!"stat dropped_unknown {st.unknowns}",
-   s!"stat chain_id_above_16_bits {st.wraps}", s!"stat ticks {st.ticks}", s!"stat purged_entries {st.purges}", s!"stat posts {st.posts}"]
+   s!"stat chain_id_above_16_bits {st.wraps}", s!"stat ticks {st.ticks}", s!"stat purged_entries {st.purges}", s!"stat posts {st.posts}",
+   s!"stat admin_posts {st.adminPosts}", s!"stat admin_posts_on_full_queue {st.adminFull}", s!"stat clock_advances {st.advances}"]
 
 def run (h : IO.FS.Stream) : IO Unit := loop h ({} : St) step fin
 
